@@ -19,7 +19,7 @@ func init() {
 		"Decides the structural clauses of exact, overflow-free deadlines on every enumerated path: each stored deadline is the saturating sum of the operation's clock sample and the duration the hook returned on that path (C12.sat); hooks are selected by the pre-state - create for absent/expired, update/reload with the live old value, failure hook on failed reloads, read hook once per counted read - and an expired predecessor's value is never passed on (C12.hook); a replacing node inherits its predecessor's deadlines first (C12.inherit); the deadline writers are exactly the known sites (C12.sites); HasExpired/IsFresh have the same boundary in every variant (C12.bound). "+
 			"NOT decided: numeric equality deadline = now + d on concrete runs.",
 		[]string{"xmath.SaturatedAdd saturates (checked by C12.satfn)", "calculators are pure with respect to the cache"},
-		ruleC12Hooks, ruleC12Sites, ruleC12Bound, ruleC12Apply)
+		ruleC12Hooks, ruleC12Sites, ruleC12Bound, ruleC12Apply, ruleC10Finisher)
 }
 
 func init() {
@@ -27,7 +27,7 @@ func init() {
 		"Decides the code-shape obligations of single-flight loading on every path: a call record is created only inside the in-flight table's computation when none exists (C08.getorcreate); doCall/doBulkCall register, before invoking the loader, a deferred recover that finishes the record(s) (C08.finish); the finish callback clears the record if it is still its own and releases the waiters exactly once after the table computation (C08.release); every record obtained with shouldLoad is dispatched exactly once before any wait and records obtained without it are only waited on (C08.dispatch). "+
 			"NOT decided: non-overlap of loader invocations in time and termination under all interleavings.",
 		[]string{"sync.WaitGroup semantics", "the executor runs submitted closures"},
-		ruleLoadLemma, ruleLoadOps, ruleBulkOps, ruleC10TableC10, ruleC08GetOrCreate, ruleC08Finish, ruleC10Inv)
+		ruleLoadLemma, ruleLoadOps, ruleBulkOps, ruleC10TableC10, ruleC08GetOrCreate, ruleC08Finish, ruleC10Inv, ruleC10Distribute, ruleC10Finisher)
 }
 
 func init() {
@@ -35,12 +35,12 @@ func init() {
 		"Decides the structural clauses of 'load outcomes map to cache state and results as documented' on every enumerated path: the load installer's decision table over (own record, not-found, error) (C10.table); the record invariants of doCall/doBulkCall - a not-found mark always comes with the not-found error, an overwritten error resets the mark, volunteered keys are registered before the error epilogue (C10.inv); a record's value reaches an API result only after wait and under err == nil, hits insert the live node's value under the looked-up key, misses return (record.value, record.err) (C10.result); BulkGet dispatches at most once, only its own records, duplicates skipped before the lookup (C10.once). "+
 			"NOT decided: exact result maps for arbitrary loader shapes beyond these guards.",
 		[]string{"loaders are opaque user functions", "in-flight table atomicity (C15)"},
-		ruleC10TableC10, ruleC10Inv, ruleLoadLemma, ruleLoadOps, ruleBulkOps, ruleC08Finish)
+		ruleC10TableC10, ruleC10Inv, ruleC10Distribute, ruleC10Finisher, ruleLoadLemma, ruleLoadOps, ruleBulkOps, ruleC08Finish)
 	register("C11",
 		"Decides the structural clauses of refresh on every enumerated path: a hit returns the value cached at that moment and never loads inline (C11.old); a reload is scheduled only on the not-fresh edge and only inside an executor closure (C11.trigger); Reload gets the old value, Load is used for absent keys (C11.reloadarg); without refresh configured nothing is returned or scheduled, a manual refresh returns a capacity-1 channel and sends exactly one result on every non-panicking path, automatic refreshes send nothing (C11.chan); a failed reload keeps the entry and its expiry, a not-found reload of its own record removes it, a successful own reload installs (C10.table, C12.hook failure rows). "+
 			"NOT decided: timing around the deadline and behaviour of asynchronous executors; one genuine defect is a known finding (bulk refresh leaves records in flight when a loader panic is re-raised).",
 		[]string{"the executor runs submitted closures", "loaders are opaque user functions"},
-		ruleLoadLemma, ruleLoadOps, ruleBulkOps, ruleC11ReloadArg, ruleC10TableC10, ruleC10Inv, ruleC12Hooks)
+		ruleLoadLemma, ruleLoadOps, ruleBulkOps, ruleC11ReloadArg, ruleC10TableC10, ruleC10Inv, ruleC10Distribute, ruleC10Finisher, ruleC12Hooks)
 }
 
 func init() {
@@ -48,12 +48,12 @@ func init() {
 		"Decides the structural clauses the size bound rests on, on every enumerated path of the policy handlers: zero-weight entries are never handed to the eviction callback by the eviction loops and are skipped by the window transfer (C04.zero); every eviction happens in an iteration guarded by weightedSize > maximum, re-read after each callback (C04.loop); oversized entries are evicted by add/update (C04.over); the running totals are written only by their handlers, add/update count a weight exactly once on every path, makeDead releases it exactly once under the not-dead guard (C04.acct); SetMaximum stores the maximum and runs maintenance under one lock section, maintenance replays writes before evicting (C04.setmax); every table change produces its replay task and the update handler leaves the new node reachable by the policy (C05.task, C05.transplant). "+
 			"NOT decided: the bound itself (sum of weights <= maximum) over histories and schedules; absence of uint64 underflow in the totals.",
 		[]string{"the eviction callback updates the policy's counters (modelled as havoc of the policy's fields)", "deque operations behave as C05.deque decides"},
-		rulePolicy, ruleDeque, ruleC04SetMax, ruleC05Task, ruleC05RunTask, ruleC13Order)
+		rulePolicy, ruleDeque, ruleDequeShape, ruleC04SetMax, ruleC05Task, ruleC05RunTask, ruleC13Order)
 	register("C05",
 		"Decides, per path, that policy bookkeeping follows the table: every table change yields exactly one matching replay task (C05.task); the replay handler applies each task kind completely (C05.runTask); add links only alive nodes (C05.alive); the update handler leaves the new node linked - transplant only from a contained predecessor, else window entry (C05.transplant); the eviction callback unlinks, unschedules and kills on all paths (C05.evict); the intrusive deque clears links of removed/replaced nodes and keeps len in step (C05.deque); totals are written only by their handlers (C04.acct); the functions that move entries between the three queues conserve membership, tag and per-queue counters on every path (C05.moves); policy, deque, wheel and node link state is written, and both buffers are consumed, only with the eviction lock held (C05.lockctx); no task is dropped on enqueue (C14.after). "+
 			"NOT decided: equality of the counters with the sum of weights and set(Coldest)=set(All) as run-time facts.",
 		[]string{"tasks are replayed exactly once in producer order (C16)"},
-		ruleC05Task, ruleC05RunTask, rulePolicy, ruleC05Moves, ruleDeque, ruleEvict, ruleC05LockCtx, ruleC14After)
+		ruleC05Task, ruleC05RunTask, rulePolicy, ruleC05Moves, ruleDeque, ruleDequeShape, ruleEvict, ruleC05LockCtx, ruleC05LockRead, ruleC14After, ruleC16Consume)
 	register("C07",
 		"Decides the structural clauses of 'entries disappear only for a sanctioned, truthful reason': evictions for size happen only in iterations guarded by weightedSize > maximum and never hit zero-weight entries (C04.loop, C04.zero); window transfers only above the window maximum (C07.window); the eviction callback reports Expiration exactly when the victim is expired at its time and Overflow otherwise, and only the policy (which exists only with a size bound) and the timer wheel call it (C07.causeflow); the wheel expires only on deadline < wheel time and passes that time (C13.nodrop). "+
 			"NOT decided: 'total weight exceeded the maximum at that moment' as a numeric fact.",
